@@ -28,12 +28,13 @@ CONSTANTS
     Execs,          \* ids of execute() calls: [id -> [flavour, how]] as a function
     AllowSigint, AllowShutdown, AllowSecond     \* environment switches
 
+Runners == 1..3      \* 1: the runner under test; 2, 3: runners competing for the guard / restarting
 Hows == {"none", "val", "exc", "base", "kbd"}
 FailHows == {"val", "exc", "base"}          \* ends that are background failures
 Coroutine(p) == Flav[p] \in {"asyncio", "trio"}
 
 VARIABLES
-    phase,      \* [1..2 -> "idle" | "starting" | "running" | "closing" | "closed" | "ended"]
+    phase,      \* [Runners -> "idle" | "starting" | "running" | "closing" | "closed" | "ended"]
     guard,      \* 0, or the runner holding the process-wide accept lock
     pst,        \* [Payloads -> "new" | "submitting" | "submitted" | "running" | "cancelled" | "done" | "discarded"]
     starts,     \* [Payloads -> Nat]  how often the payload was started
@@ -41,7 +42,7 @@ VARIABLES
     cleanleft,  \* [Payloads -> Nat] cleanup steps still to do once cancelled
     adoptret,   \* [Payloads -> "-" | "ok" | "raised"]
     sigint, shut,   \* BOOLEAN: SIGINT sent; shut: "none" | "called" | "returned"
-    result,     \* [1..2 -> [kind, cause]]  how accept() ended
+    result,     \* [Runners -> [kind, cause]]  how accept() ended
     xst,        \* [DOMAIN Execs -> "idle" | "called" | "started" | "finished" | "returned"]
     h           \* history: [stepafter, overlap, xbad, adoptbad, lost] booleans only the properties read
 
@@ -54,14 +55,14 @@ Triggered == Failed # {} \/ Kbd # {} \/ sigint \/ shut # "none"
 After == phase[1] = "ended"
 
 Init ==
-    /\ phase = [r \in 1..2 |-> "idle"] /\ guard = 0
+    /\ phase = [r \in Runners |-> "idle"] /\ guard = 0
     /\ pst = [p \in Payloads |-> "new"]
     /\ starts = [p \in Payloads |-> 0]
     /\ endhow = [p \in Payloads |-> "-"]
     /\ cleanleft = [p \in Payloads |-> Cleanup[p]]
     /\ adoptret = [p \in Payloads |-> "-"]
     /\ sigint = FALSE /\ shut = "none"
-    /\ result = [r \in 1..2 |-> NoResult]
+    /\ result = [r \in Runners |-> NoResult]
     /\ xst = [x \in DOMAIN Execs |-> "idle"]
     /\ h = [stepafter |-> FALSE, overlap |-> FALSE, xbad |-> FALSE, adoptbad |-> FALSE]
 
@@ -90,7 +91,7 @@ Discard(p) ==
 
 \* ---------------------------------------------------------------- lifecycle
 AcceptCall(r) ==
-    /\ phase[r] = "idle" /\ (r = 2 => AllowSecond)
+    /\ phase[r] = "idle" /\ (r > 1 => AllowSecond)
     /\ (r = 1 => \A p \in Pre : pst[p] = "submitted")
     /\ IF guard = 0
        THEN guard' = r /\ phase' = [phase EXCEPT ![r] = "starting"] /\ UNCHANGED result
@@ -123,7 +124,7 @@ CloseEnd(r) ==
 \* accept() ends: raises RuntimeError(cause) for a failure, returns for SIGINT / shutdown /
 \* KeyboardInterrupt; other BaseExceptions propagate as they are
 ResultFor(r) ==
-    IF r = 2 \/ Failed = {} THEN {[kind |-> "returned", cause |-> "-"]} \cup {[kind |-> "raised", cause |-> p] : p \in Kbd}
+    IF r > 1 \/ Failed = {} THEN {[kind |-> "returned", cause |-> "-"]} \cup {[kind |-> "raised", cause |-> p] : p \in Kbd}
     ELSE {[kind |-> (IF endhow[p] = "base" THEN "raised" ELSE "runtime_error"), cause |-> p] : p \in Failed}
          \* a stop requested from outside may win the race against a failure
          \cup (IF sigint \/ shut # "none" \/ Kbd # {} THEN {[kind |-> "returned", cause |-> "-"]} ELSE {})
@@ -196,13 +197,13 @@ ExecRet(x) == /\ xst[x] = "finished" /\ xst' = [xst EXCEPT ![x] = "returned"]
 Next ==
     \/ \E p \in Payloads : AdoptCall(p) \/ AdoptRet(p) \/ Discard(p) \/ Start(p) \/ Step(p)
                            \/ Cancelled(p) \/ CleanupStep(p) \/ \E how \in Hows : End(p, how)
-    \/ \E r \in 1..2 : AcceptCall(r) \/ RunningSet(r) \/ CloseBegin(r) \/ CloseEnd(r)
+    \/ \E r \in Runners : AcceptCall(r) \/ RunningSet(r) \/ CloseBegin(r) \/ CloseEnd(r)
                        \/ \E res \in ResultFor(r) : AcceptRet(r, res)
     \/ SigintSend \/ ShutdownCall \/ ShutdownRet
     \/ \E x \in DOMAIN Execs : ExecCall(x) \/ XStart(x) \/ XEnd(x) \/ ExecRet(x)
 
 Fair == /\ \A p \in Payloads : WF_vars(Start(p)) /\ WF_vars(Cancelled(p)) /\ WF_vars(CleanupStep(p)) /\ WF_vars(AdoptRet(p))
-        /\ \A r \in 1..2 : WF_vars(RunningSet(r)) /\ WF_vars(CloseBegin(r)) /\ WF_vars(CloseEnd(r))
+        /\ \A r \in Runners : WF_vars(RunningSet(r)) /\ WF_vars(CloseBegin(r)) /\ WF_vars(CloseEnd(r))
                            /\ WF_vars(\E res \in ResultFor(r) : AcceptRet(r, res))
         /\ WF_vars(ShutdownRet)
         /\ \A x \in DOMAIN Execs : WF_vars(XStart(x)) /\ WF_vars(XEnd(x)) /\ WF_vars(ExecRet(x))
@@ -239,7 +240,7 @@ ExecNotAFailure == \A x \in DOMAIN Execs : xst[x] \in {"finished", "returned"} =
 ExecLive == \A x \in DOMAIN Execs : (xst[x] = "called") ~> (xst[x] = "returned")
 
 (* ---- C12 ---- *)
-AtMostOneAccepting == Cardinality({r \in 1..2 : phase[r] \in {"starting", "running", "closing", "closed"}}) <= 1
-GuardReleasedOnEveryExit == \A r \in 1..2 : (phase[r] = "ended" /\ result[r].kind # "guard_error") => guard # r
+AtMostOneAccepting == Cardinality({r \in Runners : phase[r] \in {"starting", "running", "closing", "closed"}}) <= 1
+GuardReleasedOnEveryExit == \A r \in Runners : (phase[r] = "ended" /\ result[r].kind # "guard_error") => guard # r
 ShutdownReturns == (shut = "called") ~> (shut = "returned") /\ ((shut = "called") ~> (phase[1] = "ended"))
 =============================================================================
